@@ -49,7 +49,8 @@ type cfgT struct {
 	Kind    string `json:"kind"`  // fixed | percent
 	Limit   uint32 `json:"limit"` // MiB or percent
 	Spike   uint32 `json:"spike"`
-	Total   uint64 `json:"total"`   // bytes, for percent
+	Total   uint64 `json:"total"`   // memory units, for percent
+	Unit    int64  `json:"unit"`    // bytes per memory unit of the scripts (0 = 1): readings and total are multiplied by it
 	SoftNs  int64  `json:"soft_ns"` // min_gc_interval_when_soft_limited
 	HardNs  int64  `json:"hard_ns"`
 	UnitNs  int64  `json:"unit_ns"`  // real duration of one time unit (timed)
@@ -120,7 +121,7 @@ func withHooks(c cfgT, read func(*runtime.MemStats), f func() error) error {
 	defer mkMu.Unlock()
 	oldR, oldG := memorylimiter.ReadMemStatsFn, memorylimiter.GetMemoryFn
 	memorylimiter.ReadMemStatsFn = read
-	memorylimiter.GetMemoryFn = func() (uint64, error) { return c.Total, nil }
+	memorylimiter.GetMemoryFn = func() (uint64, error) { return c.Total * uint64(unit), nil }
 	defer func() { memorylimiter.ReadMemStatsFn, memorylimiter.GetMemoryFn = oldR, oldG }()
 	return f()
 }
@@ -159,7 +160,15 @@ type reader struct {
 	extra     int    // reads beyond the second
 }
 
-func (s *reader) begin(r, a int64) { *s = reader{r: r, a: a} }
+func (s *reader) begin(r, a int64) {
+	if a >= 0 {
+		a *= unit
+	}
+	*s = reader{r: r * unit, a: a}
+}
+
+// bytes per memory unit of the scripts (cfg.unit)
+var unit int64 = 1
 
 func (s *reader) read(ms *runtime.MemStats) {
 	s.reads++
@@ -659,7 +668,7 @@ func wrapOne(c cfgT, idx int, beh []step, names []string) (*mismatch, int, error
 			}
 			delete(started, st.U)
 		case "tcheck":
-			n0 := sys.set(uint64(st.R))
+			n0 := sys.set(uint64(st.R * unit))
 			// the check that performs read n0+1 sees the new value; it is complete when a later
 			// check begins (2 further reads leave room for a re-measurement inside it)
 			if !sys.waitReads(n0, 3, aliveBound) {
@@ -726,6 +735,9 @@ func main() {
 	if err == nil {
 		if c.CheckNs == 0 {
 			c.CheckNs = int64(time.Hour)
+		}
+		if c.Unit > 0 {
+			unit = c.Unit
 		}
 		switch os.Args[1] {
 		case "checks":
